@@ -8,7 +8,37 @@ import iongen
 import binlib
 import textgen
 
-THEOREMS = []
+THEOREMS = [
+    "c02_skip_whitespace",
+    "c02_skip_lob_whitespace",
+    "c02_skip_whitespace_eof_comment",
+    "c02_read_number",
+    "c02_read_radix",
+    "c02_parse_int_dec",
+    "c02_parse_int_hex",
+    "c02_parse_int_bin",
+    "c02_parse_decimal_except_known",
+    "c02_parse_decimal_full_refuted",
+    "c02_float_text",
+    "c02_escape",
+    "c02_escape_spec",
+    "c02_read_string",
+    "c02_read_long_string",
+    "c02_read_symbol",
+    "c02_read_quoted_symbol",
+    "c02_read_operator",
+    "c02_symbol_sid",
+    "c02_symbol_text",
+    "c02_read_blob",
+    "c02_blob_spec",
+    "c02_read_clob",
+    "c02_read_long_clob",
+    "c02_timestamp",
+    "c02_traverse_scalar_stream_partial",
+    "c02_next_value",
+    "c02_traverse_stream_partial",
+    "c02_traverse_tree",
+]
 LEVEL = "other"
 EXPLANATION = ("Value forests (lib/iongen.py, plus symbols without text) are rendered by an independent, spec-derived "
                "printer (lib/textgen.py) that picks a random legal spelling at every token: whitespace and both comment "
